@@ -720,7 +720,12 @@ func (s *storage) Shrink(stopAfter time.Duration) bool {
 				anyFound = true
 			}
 			if !table.isFree && table.Len() == 0 {
-				s.archetypes[table.archetype].FreeTable(table)
+				archetype := &s.archetypes[table.archetype]
+				archetype.FreeTable(table)
+				// The relation targets are still alive here, so the table must also be
+				// removed from the target lookups and from cached filters.
+				archetype.removeFromTargets(table)
+				s.cache.removeTable(table)
 				verifProbe(verifProbeTableFreedShrink)
 				anyFound = true
 			}
